@@ -734,7 +734,27 @@ impl<'a> Rules<'a> {
                     }
                 }
             }
-            "format" => self.push("R5", whole, vec![lit("()")]),
+            "format" => {
+                // R5: the MESSAGE is dropped (format string, Display/Debug of the values); the argument expressions
+                // are still evaluated, so that an index, a slice, arithmetic or a call inside them keeps its
+                // obligations (a panic while building an error message is a panic)
+                let a = args();
+                if a.len() <= 1 {
+                    self.push("R5", whole, vec![lit("vfmt_msg()")]);
+                } else {
+                    let mut parts = vec![lit("({ ")];
+                    for e in a[1..].iter() {
+                        parts.push(lit("vfmt_arg(&("));
+                        parts.push(self.src_part(e.span()));
+                        parts.push(lit(")); "));
+                    }
+                    parts.push(lit("vfmt_msg() })"));
+                    self.push("R5", whole, parts);
+                    for e in &a[1..] {
+                        self.visit_expr(e);
+                    }
+                }
+            }
             // as the body of a match arm the macro stands for a value of the arms' type: generic stub
             "panic" | "unreachable" | "unimplemented" | "todo" if self.arm_body_macro => self.push("R6", whole, vec![lit("vpanic_any()")]),
             "panic" | "unreachable" | "unimplemented" | "todo" => self.push("R6", whole, vec![lit("vpanic()")]),
